@@ -213,6 +213,14 @@ def run(ctx, rep):
             latches = [x for x in f.loops[inner] if inner in f.succ[x]]
             ok = ok and C04.must_increment(f, e[2], flags, latches)
             det = 'mismatch edge always sets error/silent flag before the next disk: %s' % ok
+            # the silent flag alone does not keep the block out of the commit: it sends the stripe to the on-the-fly recovery, and a
+            # recovery that succeeds (fixed = 1) commits EVERY block of the stripe -- it re-verifies only the blocks listed in failed[].
+            # So a mismatching block either raises the unconditional error flag or is entered in failed[]
+            fl_ = [i for i in f.all_insts() if i.op == 'store' and f.expr(i.ops[1]).startswith('&failed[') and f.expr(i.ops[1]).endswith('.block')]
+            ok2 = C04.must_increment(f, e[2], L.flag_stores('error_on_this_block', 1) + fl_, latches)
+            if not ok2:
+                det = 'a mismatching block can reach the next disk with only the silent-error flag and without being entered in failed[]: the on-the-fly recovery of the stripe does not re-verify it, and when it succeeds the block is committed with its unverified provisional hash'
+            ok = ok and ok2
     rep.check(ok, 'R-C19-5', 'state_sync_process: a block with a provisional (updated) hash reaches the commit only through the equal edge', f.file, det, function='state_sync_process', construct='provisional hash verified')
     hp = P.fn('state_hash_process')
     rep.analysed(hp)
